@@ -378,6 +378,12 @@ class Reasoner:
                 r = self.range_len(c[2][0], c[2][1], depth + 1)
                 if r is not None:
                     return r
+            if c[1] in self.prog.bodies and depth < 20:
+                rl = ret_payload_len(self.prog, c[1])
+                if rl is not None:
+                    sl = subst_lin(rl, c[2], self)
+                    if sl is not None:
+                        return sl
         return Lin.atom(("len", x))
 
     def _array_len(self, x):
@@ -1000,6 +1006,105 @@ class Reasoner:
 
 
 _RFB = {}
+_RPL = {}
+
+
+def ret_payload_len(prog, fid):
+    """If workspace function `fid` returns Ok(s)/Some(s) with a slice s whose length is the same
+    linear form over the function's parameters on every success path, that form (else None).
+    E.g. Unpacker::read_raw(self, len) -> Ok(raw) with len(raw) = len."""
+    if fid in _RPL and _RPL[fid][0] is prog:
+        return _RPL[fid][1]
+    _RPL[fid] = (prog, None)
+    body = prog.bodies.get(fid)
+    res = None
+    if body is not None and body.kind in ("Fn", "AssocFn"):
+        from .ir import IR
+        ir = IR(body)
+        rs = Reasoner(ir, prog)
+        forms = []
+        ok = True
+        for (bi, si, kind, node) in ir.defs.get(0, []):
+            if kind != "assign":
+                # result of a call (e.g. `self.error()`): fine if it cannot be the success variant -- unknown
+                ok = ok and _never_success(prog, node)
+                continue
+            v = ir.rvalue(node["r"], (bi, si))
+            if v[0] == "agg" and v[1] == "adt" and v[3] in ("Ok", "Some") and len(v[4]) == 1:
+                l = rs.len_lin(v[4][0][1])
+                if l is None or any(not _args_only_expr(a) for a in l.co):
+                    ok = False
+                else:
+                    forms.append(l)
+            elif v[0] == "agg" and v[1] == "adt" and v[3] in ("Err", "None"):
+                continue
+            else:
+                ok = False
+        if ok and forms and all(f.key() == forms[0].key() for f in forms):
+            res = forms[0]
+    _RPL[fid] = (prog, res)
+    return res
+
+
+def _never_success(prog, term):
+    """the callee of this call terminator only ever returns Err/None"""
+    f = term.get("callee")
+    b = prog.bodies.get(f)
+    if b is None:
+        return False
+    from .ir import IR
+    ir = IR(b)
+    ds = ir.defs.get(0, [])
+    if not ds:
+        return False
+    for (bi, si, kind, node) in ds:
+        if kind != "assign":
+            return False
+        r = node["r"]
+        if not (r["k"] == "agg" and r.get("variant") in ("Err", "None")):
+            return False
+    return True
+
+
+def _args_only_expr(e):
+    from .ir import walk
+    for x in walk(e):
+        if isinstance(x, tuple) and x and isinstance(x[0], str) and x[0] in ("var", "deref", "call"):
+            if x[0] == "call" and x[1] in ("std::mem::size_of",):
+                continue
+            return False
+    return True
+
+
+def subst_expr(e, args):
+    from .ir import simplify
+    if not isinstance(e, tuple) or not e:
+        return e
+    if e[0] == "arg":
+        if e[1] < len(args):
+            return args[e[1]]
+        return ("var", -1, "?", None)
+    if isinstance(e[0], str):
+        if e[0] in ("c", "k", "fn", "var"):
+            return e
+        if e[0] == "call":
+            return ("call", e[1], tuple(subst_expr(a, args) for a in e[2])) + tuple(e[3:])
+        return simplify((e[0],) + tuple(subst_expr(x, args) if isinstance(x, tuple) else x for x in e[1:]))
+    return tuple(subst_expr(x, args) if isinstance(x, tuple) else x for x in e)
+
+
+def subst_lin(l, args, rs):
+    out = Lin.const(l.k)
+    for a, c in l.co.items():
+        e = subst_expr(a, args)
+        if e[0] == "len":
+            le = rs.len_lin(e[1])
+        else:
+            le = rs.lin(e)
+        if le is None:
+            return None
+        out = out.add(le.scale(c))
+    return out
 
 
 def ret_field_bounds(prog, fid, field):
